@@ -3,11 +3,41 @@
 import json, os
 V = "/verif"
 checks = {
+ "C01": dict(level="model_checking", engine="explore",
+   technique="stateless model checking of the real five-stage pipeline (instrumented from the working tree) on fake sites under a controlled scheduler: exhaustive DFS over schedules within a delay bound and over all select outcomes, happens-before state cache; reference crawler as oracle",
+   text="488 (quick) scenarios = every seed kind x every multiset of <=2 asset kinds x 2 worker/asset-concurrency configurations plus four colliding multi-seed sites x 3 configurations; for each, every schedule of reactor, stage workers, per-asset goroutines, WARC-write threads and the source sink with at most D deviations from the canonical scheduler (quick D=1 sweep / 2 depth, thorough D=2 / 3) is executed on the real code. Oracle per execution: each inserted seed finished exactly once; no node of the finished tree awaits work; every URL of an independent reference crawler's tree fetched with the reference attempt count and its fetch closed before the finish message; nothing else fetched; reactor empty; no panic, no deadlock.",
+   note="Fake transport (immediate answers; WARC write = separate scheduled thread started at body close); seencheck against an in-memory fake crawl HQ; pkg/models, stats, domainscrawl points are not scheduling points; delay bounding explores all schedules within D deviations, not all schedules.",
+   ref="4/C01"),
+ "C05": dict(level="exploration", engine="grid",
+   technique="exhaustive input-grid enumeration (URL text x tree position x all 32 filter configurations) through the real preprocess(), independent scope predicate as oracle",
+   text="3.8 M (quick) / 25 M (thorough) cases: every URL text of the grammar product in seed, redirect-target and asset position under every on/off combination of the five filter kinds goes through the real preprocess(); every request that leaves the stage is judged by a predicate written from the property's words only.",
+   note="Archiver sends GetRequest() unchanged and never follows redirects itself (read from the code); literal readings (localhost., 127.0.0.2) counted, not alarmed.",
+   ref="4/C05"),
+ "C07": dict(level="exploration", engine="grid",
+   technique="exhaustive enumeration of generated HTML documents (carrier x quoting x reference form x nesting x page URL x settings, plus all carrier pairs) through the real ProcessBody, postprocess() and preprocess(); expected URLs from a table cross-checked against net/url.ResolveReference",
+   text="281 k (quick) / 2.36 M (thorough) evaluations; every planted reference must be requested as an asset (or handed over as an outlink) exactly when none of the property's exceptions applies, and must not be when a listed exception applies.",
+   note="Extra extracted URLs are not errors; seen-store is real LevelDB with per-evaluation unique tokens.",
+   ref="4/C07"),
+ "C09": dict(level="exploration", engine="grid",
+   technique="exhaustive URL-grammar product through the real NormalizeURL/URL.String with every iteration order of the query map enumerated (instrumented pkg/models, EnumerateSeq), RFC 3986 reference resolver as oracle",
+   text="462 k (quick) / 6.4 M (thorough) URL texts x parents; determinism under every map order and repeated evaluation, idempotence of Raw and String(), shape of accepted results, agreement with net/url.ResolveReference for relative forms, order and multiplicity of query pairs.",
+   note="Loopback read literally (localhost, 127.0.0.1); empty reference rejected by ada carries no demand.",
+   ref="4/C09"),
+ "C11": dict(level="model_checking", engine="opbfs",
+   technique="explicit-state breadth-first search over stage-shaped operation sequences on the real item tree with a reference tree run in lock-step, plus exhaustive small-scope enumeration of reachable tree shapes",
+   text="All histories of preprocess/archive/postprocess/finisher passes from a fresh seed up to 6 (quick) / 8 (thorough) nodes: 60 k / 2 M canonical states; in every state CheckConsistency, direct structural checks, dedupe exactness (one node per URL, no URL lost), completion <=> nothing pending, equality with the reference tree.",
+   note="URLs compared only for equality (states canonical up to URL renaming); stage passes transcribed from the stage code (guards included).",
+   ref="4/C11"),
  "C12": dict(level="model_checking", engine="explore",
    technique="stateless DFS model checking of the real reactor under a controlled scheduler (preemption-bounded, happens-before state cache) + brute-force linearizability check",
    text="Every schedule of 2 producers, a consumer, a controller and the reactor's own goroutine on the real reactor code, with at most P preemptions (quick P=1, thorough P=2) and all select outcomes, is executed; each complete call history is checked for linearizability against the sequential specification, the token/state-table accounting is checked whenever no call is in flight, feedback is checked never to be disabled, and deadlock/panic end the run as violations.",
    note="Scheduling points are the channel, sync, atomic and context operations of internal/pkg/reactor as found by the instrumenter in the working tree; data races between those points are not explored. sync.Map.Range order fixed to insertion order. Token counts 1 and 2, three seeds.",
    ref="4/C12"),
+ "C18": dict(level="exploration", engine="grid",
+   technique="exhaustive boundary-grid enumeration of (total, free, min-space) through checkThreshold/CheckDiskUsage with exact rational oracle (math/big), every operator flag value through the real flag/viper path, and all 3-tick reading sequences of the real WatchDiskSpace under the virtual clock",
+   text="199 k (quick) / 55.6 M (thorough) distinct triples incl. every byte around each threshold, the 256 GiB switch and float64 edges; refusal <=> free < threshold exactly, monotone in free; 1 084 / 20 082 flag settings resolved through the real CLI path; 506 watcher executions.",
+   note="Thresholds <= 2^63 bytes; statfs readings supplied by the harness (Bavail != Bfree on purpose).",
+   ref="4/C18"),
 }
 na = []
 man = {
@@ -22,6 +52,8 @@ man = {
  },
  "engines": [
    {"name": "explore", "path": "engine/vrt/vsched", "kind_free_text": "controlled scheduler + stateless depth-first search over schedules/select outcomes/environment answers of instrumented real code, preemption- and deviation-bounded, happens-before state cache", "serves_properties": []},
+   {"name": "opbfs", "path": "harness/c11", "kind_free_text": "explicit-state breadth-first search over operation sequences, real object rebuilt by replay, canonical state key", "serves_properties": []},
+   {"name": "grid", "path": "engine/vrt/hkit", "kind_free_text": "exhaustive product enumeration of small alphabets through real sequential code against a reference predicate, sharded over processes", "serves_properties": []},
    {"name": "instr", "path": "engine/instr", "kind_free_text": "AST instrumenter (go/ast + go/types): rewrites go/select/send/recv/close/range/sync/atomic/context/time of Zeno packages into vsched hooks, output used through go build -overlay", "serves_properties": []},
  ],
  "checks": [],
